@@ -1,11 +1,17 @@
 #!/bin/bash
-# run_seed.sh <seed-id e.g. C18-m1> [tier] : apply the seeded patch to /repo, run the property's check, undo.
-S="$1"; TIER="${2:-quick}"; P="${S%%-*}"
+# run_seed.sh <seed-id e.g. C18-m1> [tier] [extra check args]
+# Runs the property's check against a patched *copy* of /repo's working tree (VERIF_REPO), so that /repo itself stays
+# untouched and several seeds can be evaluated concurrently with normal checks. (Equivalent to
+# `git -C /repo apply patch; ./check; git -C /repo checkout -- .`, which is what run_seed_inplace.sh does.)
+S="$1"; TIER="${2:-quick}"; P="${S%%-*}"; shift; shift
+D=$(mktemp -d /tmp/seedrun-$S-XXXX)
+rsync -a --exclude /target --exclude /.git /repo/ "$D/repo/"
+( cd "$D/repo" && git init -q . 2>/dev/null && git apply "/verif/seeded/$S/patch.diff" ) || { echo "$S: patch does not apply"; rm -rf "$D"; exit 3; }
+rm -rf "$D/repo/.git"
+mkdir -p /verif/.cache/logs
 cd /verif
-git -C /repo diff --quiet || { echo "/repo is dirty, refusing"; exit 3; }
-git -C /repo apply "/verif/seeded/$S/patch.diff" || { echo "patch does not apply"; exit 3; }
-./check "$P" --tier "$TIER" --no-evidence > "/verif/.cache/logs/seed-$S.out" 2>&1; RC=$?
-git -C /repo checkout -- .
+VERIF_REPO="$D/repo" ./check "$P" --tier "$TIER" --no-evidence "$@" > "/verif/.cache/logs/seed-$S.out" 2>&1; RC=$?
+rm -rf "$D"
 echo "$S tier=$TIER rc=$RC $(grep -c '^VIOLATION' /verif/.cache/logs/seed-$S.out) violation line(s)"
 grep '^VIOLATION\|^UNDECIDED' "/verif/.cache/logs/seed-$S.out" | head -5
 exit $RC
